@@ -9,6 +9,11 @@ from plasTeX.Base.LaTeX.Sectioning import SectionUtils
 class document(Environment, SectionUtils):
     level = Environment.DOCUMENT_LEVEL
 
+    # The document body is the outermost container of running text: always
+    # group it into paragraphs so that text is merged and character
+    # substitutions are applied even when the body contains no blank line
+    forcePars = True
+
     @property
     def title(self):
         return self.ownerDocument.userdata.get('title','')
